@@ -348,7 +348,10 @@ class Ctx:
             for t in self.ties:
                 # a disagreement on a case whose implementation history already exhibits a listed known
                 # finding is that finding (the spec-level model says what the property says), not a new alarm
-                known_cases = {cid for cid, sig, _ in t.monitor_fails if sig in known_sigs}
+                # Only where the property script says its model is spec-level there (`attribute_mismatches`):
+                # the channel / cache models mirror the code's known defects, so for them a disagreement is
+                # always a broken correspondence, also on a case that exhibits a known finding.
+                known_cases = {cid for cid, sig, _ in t.monitor_fails if sig in known_sigs} if getattr(self, "attribute_mismatches", False) else set()
                 attributed = [m for m in t.mismatches if m[0] in known_cases]
                 t.mismatches = [m for m in t.mismatches if m[0] not in known_cases]
                 t.attributed_to_known = len(attributed)
